@@ -72,6 +72,17 @@ FIXED = {
         "calls": [{"args": [["n", "K1", 0, [["n", "K2", 1, []]]]]}, {"args": [["n", "K2", 2, []]]},
                   {"args": [["n", "K0", 1, []]]}],
     },
+    # a method that hands a *converted* argument (of another type) to call_next: the continuation
+    # entry (its code, K2) is looked up while another thread is resolving K2 for the first time
+    "conv": {
+        "spec": {"classes": _CL, "hooks": [], "deps": [], "methods": {
+            "m0": _m(["o"], ["leaf"]), "m1": _m(["c", "K0"], ["next_other", ["n", "K2", 5, []]]),
+            "m2": _m(["c", "K1"], ["next"]), "m3": _m(["c", "K2"], ["next"]),
+        }, "meta": _META1},
+        "regs": [["m0"], ["m1"], ["m2"], ["m3"]],
+        "calls": [{"args": [["n", "K2", 0, []]]}, {"args": [["n", "K1", 0, []]]},
+                  {"args": [["int", 1]]}],
+    },
     # optional positional and optional keyword-only parameters: the generated entry point relies on
     # __defaults__ / __kwdefaults__, and the calls below omit the optional arguments
     "opt": {
